@@ -24,7 +24,7 @@ class RxAuto:
         return rx.sets_in(self.sem)
 
 
-def check_languages(ctx, todo, rng, KEY, strings_budget=90, sweep_states=3, per_batch=30, max_reps=6, extra_args=()):
+def check_languages(ctx, todo, rng, KEY, strings_budget=90, sweep_states=3, per_batch=30, max_reps=6, extra_args=(), classify=None):
     """todo: [(pattern_source | full program source, semantic_regex | automaton, extra_strings|None)]
     automaton interface: start(), step(q, byte) -> q' | None (dead: FAIL at this byte), accepting(q) (end() == DONE), sets()"""
     for chunk in work.chunked(todo, per_batch):
@@ -122,6 +122,8 @@ def check_languages(ctx, todo, rng, KEY, strings_budget=90, sweep_states=3, per_
                         what = "fails-while-live" if g_[1] == 1 else "no-fail-when-dead"
                     else:
                         what = "fail-pointer"
+                    if classify:
+                        what = classify(what, p.meta["regex"]) or what
                     ctx.violation(KEY + ":" + what, "regex %s on prefix %r: expected %s, observed %s" % (p.meta["regex"], w[:nbytes], e_, g_),
                                   dict(base, input_hex=w.hex(), expected=exp, observed=got))
             else:
@@ -144,6 +146,8 @@ def check_languages(ctx, todo, rng, KEY, strings_budget=90, sweep_states=3, per_
                         want = (0, 2 if sem.accepting(d) else 1, 1)
                     if (code, ecode, adv) != want:
                         what = "byte-class:" + ("accepts-extra-byte" if d is None else ("rejects-byte" if code == 1 else "acceptance-after-byte"))
+                        if classify:
+                            what = classify(what, p.meta["regex"]) or what
                         ctx.violation(KEY + ":" + what, "regex %s after %r: byte 0x%02x expected (feed,end,advance)=%s observed %s" %
                                       (p.meta["regex"], w, b, want, (code, ecode, adv)), dict(base, prefix_hex=w.hex(), byte=b))
                         break
